@@ -9,15 +9,13 @@
 use grin_chain::types::Options;
 use grin_chain::Chain;
 use grin_core::core::hash::{Hash, Hashed};
-use grin_core::core::{Block, KernelFeatures, Transaction};
+use grin_core::core::Block;
 use grin_core::global;
 use serde_json::json;
-use std::collections::HashMap;
-use std::sync::atomic::{AtomicU64, Ordering};
 use vcommon::forktree::{hist_from_json, hist_to_json, GenBlock, Hist};
 use vcommon::ledger::bitmap_root_from_idx;
 use vcommon::snapshot::{compare_with_ref, snapshot};
-use vcommon::world::{fee_fields, init_globals, init_thread, open_chain, Coin, PowMode, World};
+use vcommon::world::{init_globals, init_thread, open_chain, Coin, PowMode};
 use vcommon::{Prng, Run, Scratch};
 
 const OUTS_PER_TX: usize = 9;
@@ -25,85 +23,7 @@ const OUTS_PER_TX: usize = 9;
 /// Build the trunk: block i carries one transaction spending the coinbase of
 /// block i-4 into 9 outputs. All proofs are created in parallel.
 fn build_trunk(seed: u64, n_blocks: u64) -> Hist {
-	let mut h = Hist::new(seed, false);
-	let w = h.world.clone();
-	let reward = grin_core::consensus::REWARD;
-	// plan
-	let fee_of = |i: u64| -> u64 { if i >= 5 { 1_000_000 * (1 + (i % 3)) } else { 0 } };
-	let cb_key = |i: u64| w.key(10_000 + i as u32);
-	let out_key = |i: u64, j: usize| w.key(100_000 + (i as u32) * 16 + j as u32);
-	let next = AtomicU64::new(1);
-	let built = std::sync::Mutex::new(HashMap::<u64, (Option<Transaction>, (grin_core::core::Output, grin_core::core::TxKernel))>::new());
-	std::thread::scope(|s| {
-		for _ in 0..16 {
-			s.spawn(|| {
-				init_thread(true);
-				loop {
-					let i = next.fetch_add(1, Ordering::SeqCst);
-					if i > n_blocks {
-						break;
-					}
-					let mut p = Prng::new(seed ^ (i.wrapping_mul(0x9E3779B97F4A7C15)));
-					let tx = if i >= 5 {
-						let src = i - 4;
-						let inp = w.coin(reward + fee_of(src), &cb_key(src), true);
-						let fee = fee_of(i);
-						let total = inp.value - fee;
-						let each = total / OUTS_PER_TX as u64;
-						let mut outs = vec![];
-						let mut left = total;
-						for j in 0..OUTS_PER_TX {
-							let v = if j + 1 == OUTS_PER_TX { left } else { each };
-							left -= v;
-							outs.push((v, out_key(i, j)));
-						}
-						Some(w.tx(&mut p, &[inp], &outs, KernelFeatures::Plain { fee: fee_fields(fee) }).0)
-					} else {
-						None
-					};
-					let cb = w.coinbase(&cb_key(i), fee_of(i));
-					built.lock().unwrap().insert(i, (tx, cb));
-				}
-			});
-		}
-	});
-	let mut built = built.into_inner().unwrap();
-	let mut tip = h.genesis.hash();
-	let mut p = Prng::new(seed ^ 0x7121);
-	for i in 1..=n_blocks {
-		let (tx, cb) = built.remove(&i).unwrap();
-		let txs: Vec<Transaction> = tx.into_iter().collect();
-		let b = h
-			.ledger
-			.make_block_with_reward(&mut p, &tip, &txs, cb, PowMode::Skip { difficulty: 10 }, 60)
-			.expect("trunk block");
-		// register coins
-		let cbc = w.coin(reward + fee_of(i), &cb_key(i), true);
-		h.coins.insert(cbc.commit.0.to_vec(), cbc);
-		if i >= 5 {
-			let src = i - 4;
-			let total = reward + fee_of(src) - fee_of(i);
-			let each = total / OUTS_PER_TX as u64;
-			let mut left = total;
-			for j in 0..OUTS_PER_TX {
-				let v = if j + 1 == OUTS_PER_TX { left } else { each };
-				left -= v;
-				let c = w.coin(v, &out_key(i, j), false);
-				h.coins.insert(c.commit.0.to_vec(), c);
-			}
-		}
-		tip = b.hash();
-		h.blocks.push(GenBlock {
-			hash: tip,
-			parent: b.header.prev_hash,
-			block: b,
-			verdict: Ok(()),
-			class: "honest".into(),
-			tags: vec![],
-		});
-	}
-	h.next_key = 2_000_000;
-	h
+	vcommon::scenarios::build_multi_chunk_trunk(seed, n_blocks, OUTS_PER_TX)
 }
 
 struct Node {
